@@ -13,7 +13,7 @@ from vf import alg, sched
 from vf.alg import ALG
 from vf.symarray import SymArray, shimmed
 from vf.algprover import verify_identity, native_check as alg_native_check
-from vf.prover import ob, jsonable
+from vf.prover import ob, jsonable, from_repo
 from vf.loopcut import extract_loop
 from . import spec_sim as SS
 
@@ -374,7 +374,25 @@ def _job_recording(tier, rng):
                 ok = ok and tuple(idx) == index and all(isinstance(v, int) for v in idx)
             info = repr((g.kind, idx))
         except Exception as ex:
+            if not from_repo(ex) and not isinstance(ex, (IndexError, KeyError, TypeError, AttributeError, ValueError)):
+                raise
             ok = False; info = f'{type(ex).__name__}: {ex}'
+        if not ok:
+            # the frame check reads the circuit's internal representation (gate_index_list entries); end-to-end, independent of the representation: the unitary of the two-gate
+            # circuit must be Embed(gate) . Embed(H on qubit 5). If it is, the representation merely changed -> undecided; otherwise a violation with this call as the witness.
+            try:
+                c2 = numqi.sim.Circuit(); c2.H(5); getattr(c2, meth)(*args, **kw)
+                U = np.asarray(c2.to_unitary())
+                E = SS.embed(np.asarray(arr_, dtype=complex), list(index), 6) if kind == 'unitary' else SS.ctrl_embed(np.asarray(arr_, dtype=complex), sorted(index[0]), list(index[1]), 6)
+                same = U.shape == (64, 64) and np.abs(U - E @ SS.embed(np.asarray(G.H, dtype=complex), [5], 6)).max() < 1e-12
+            except Exception as ex:
+                if not from_repo(ex):
+                    raise
+                same = False; info += f' | end-to-end: {type(ex).__name__}: {ex}'
+            if same:
+                out.append(ob(f'{PROP}.Circuit.{meth}.appends_exactly_gate_and_index', 'undecided', engine_suspect=True, tier='P', backend='exact-eval (frame check)+native',
+                              functions=[f'numqi.sim.circuit:Circuit.{meth}'], detail=f'the recorded entry does not have the representation the frame check reads ({info}), but the circuit unitary equals the embedded operator'))
+                continue
         out.append(ob(f'{PROP}.Circuit.{meth}.appends_exactly_gate_and_index', 'proved' if ok else 'refuted', tier='P', backend='exact-eval (concrete call, frame check)',
                       functions=[f'numqi.sim.circuit:Circuit.{meth}'], witness=None if ok else dict(method=meth, args=repr(args), observed=info),
                       native=dict(confirmed=not ok)))
